@@ -55,6 +55,46 @@ func main() {
 		}
 	case "paths":
 		debugPaths(envOr("HRVERIF_REPO", "/repo"), os.Args[2])
+	case "matrix":
+		// hrverif matrix --repo DIR --verif SCRATCH [Cnn...]: one load, the quick rules of every named property (development aid)
+		repo, verif := envOr("HRVERIF_REPO", "/repo"), ""
+		var props []string
+		for i := 2; i < len(os.Args); i++ {
+			switch os.Args[i] {
+			case "--repo":
+				i++
+				repo = os.Args[i]
+			case "--verif":
+				i++
+				verif = os.Args[i]
+			default:
+				props = append(props, os.Args[i])
+			}
+		}
+		if verif == "" {
+			fmt.Fprintln(os.Stderr, "hrverif matrix: --verif SCRATCH is required (evidence is written there)")
+			os.Exit(2)
+		}
+		if len(props) == 0 {
+			for id := range rules.Props {
+				props = append(props, id)
+			}
+		}
+		sort.Strings(props)
+		p, err := core.LoadRepo(repo, nil)
+		if err != nil {
+			fmt.Fprintf(os.Stderr, "hrverif: cannot analyse %s: %v\n", repo, err)
+			os.Exit(2)
+		}
+		worst := 0
+		for _, id := range props {
+			rc := runQuick(p, id, verif)
+			fmt.Printf("== %s rc=%d\n", id, rc)
+			if rc > worst {
+				worst = rc
+			}
+		}
+		os.Exit(worst)
 	case "check":
 		if len(os.Args) < 3 {
 			usage()
@@ -82,6 +122,23 @@ func main() {
 	default:
 		usage()
 	}
+}
+
+func runQuick(p *core.Program, prop, verif string) (code int) {
+	start := time.Now()
+	pr := rules.Props[prop]
+	if pr == nil {
+		return 2
+	}
+	defer func() {
+		if r := recover(); r != nil {
+			fmt.Fprintf(os.Stderr, "hrverif: internal error in %s: %v\n%s\n", prop, r, debug.Stack())
+			code = 2
+		}
+	}()
+	ctx := core.NewCtx(prop, "quick", p)
+	pr.Run(ctx)
+	return ctx.Finish(verif, 0, start, "matrix", map[string]interface{}{})
 }
 
 func envOr(k, d string) string {
@@ -168,8 +225,8 @@ func check(prop, tier, repo, verif string) (code int) {
 		deepInfo = map[string]interface{}{"obligations": len(deep.Obs), "abstract_states": deep.States, "explorations_over_budget": budget, "violations_found_only_at_depth": added, "parameters": "two exactly explored iterations per loop, inlining depth 7, 400000 states / 60 s per exploration"}
 	}
 	extra := map[string]interface{}{
-		"canaries": map[string]interface{}{"checked": canRes.Checked, "fired_on_bad": canRes.Fired, "silent_on_good": canRes.Silent},
-		"rules":    pr.Rules,
+		"canaries":        map[string]interface{}{"checked": canRes.Checked, "fired_on_bad": canRes.Fired, "silent_on_good": canRes.Silent},
+		"rules":           pr.Rules,
 		"does_not_decide": pr.NotDecided,
 	}
 	if len(deepInfo) > 0 {
